@@ -240,15 +240,27 @@ Definition lres_ares (r : @lres val) : ares :=
   | LErrData => AErr 3
   end.
 
-(** a script on one link: [Some (shape, vals)] = the source publishes a data set (as it reaches the
-    input, i.e. with time axis), [None] = the input pulls (the most recent data set) *)
-Definition seq_op : Type := option (list nat * list val).
+(** flat (1-D) data of [data_size] entries pushed by the source component: tools.prepare reshapes it
+    to [1 :: data_shape g] in the grid's order (data/tools/core.py _check_input_shape:
+    [data.reshape([1] + list(grid.data_shape), order=grid.order)]) *)
+Definition flat_arr {A : Type} (d : A) (g : grid) (vals : list A) : arr A :=
+  mkarr (1 :: data_shape g) (fun idx => nth (flat (g_c g) (data_shape g) (tl idx)) vals d).
+
+(** a script on one link: the source publishes a data set ([SPush]: as it reaches the input, i.e.
+    with time axis; [SPushFlat]: flat data in the grid's order), or the input pulls (the most
+    recent data set) *)
+Inductive seq_op : Type :=
+| SPush (shp : list nat) (vals : list val)
+| SPushFlat (vals : list val)
+| SPull.
+
 Fixpoint run_seq (static : bool) (g h : grid) (cur : option (arr val)) (cache : option (arr val))
   (ops : list seq_op) : list ares :=
   match ops with
   | [] => []
-  | Some (shp, vals) :: r => run_seq static g h (Some (arr_of_list None shp vals)) cache r
-  | None :: r =>
+  | SPush shp vals :: r => run_seq static g h (Some (arr_of_list None shp vals)) cache r
+  | SPushFlat vals :: r => run_seq static g h (Some (flat_arr None g vals)) cache r
+  | SPull :: r =>
       match cur with
       | None => AErr 4 :: run_seq static g h cur cache r
       | Some d => let '(cache', res) := pull_input static g h cache d in
